@@ -121,4 +121,140 @@ theorem decodeGroups_ok (zc : Nat → List Nat → List Nat) (zd : List Nat → 
     rw [(hGm t ht (by omega)).id, planGroup_spec_id _ _ _ _ hpt]
     exact List.mem_map.mpr ⟨_, List.getElem_mem _, rfl⟩
 
+/-! ## `checkUnused` -/
+
+theorem lookup3_get {α : Type} (t : List (List (List α))) (r : PieceRef) (x : α) (h : lookup3 t r = some x) :
+    ∃ a b, t[r.1]? = some a ∧ a[r.2.1]? = some b ∧ b[r.2.2]? = some x := by
+  unfold lookup3 at h
+  cases h1 : t[r.1]? with
+  | none => rw [h1] at h; simp at h
+  | some a =>
+    rw [h1] at h
+    simp only [Option.bind_some] at h
+    cases h2 : a[r.2.1]? with
+    | none => rw [h2] at h; simp at h
+    | some b =>
+      rw [h2] at h
+      simp only [Option.bind_some] at h
+      exact ⟨a, b, rfl, h2, h⟩
+
+/-- every group id is the group of some descriptor of the catalogue tables -/
+theorem group_used (cfg : Cfg) (inp : List Writer.Sample) (dec : Decisions) (outs : List GroupOut)
+    (hok : DecOK cfg inp dec) (G : GroupDec) (hG : G ∈ dec.groups) :
+    G.id ∈ ((List.zipWith (fun s dcs => tableOf outs s.contigs dcs) inp dec.pieces).flatMap
+      fun t => t.flatMap (·.2)).map (·.group) := by
+  obtain ⟨_, hne, _, hmem⟩ := hok.groups G hG
+  obtain ⟨r0, rest, hr⟩ := List.exists_cons_of_ne_nil hne
+  obtain ⟨d, hl, hdg, _⟩ := hmem (r0, 0) (by rw [hr]; simp [List.zipIdx_cons])
+  obtain ⟨dcs, ds, h3, h4, h5⟩ := lookup3_get _ _ _ hl
+  -- the sample and the contig exist
+  have hs : r0.1 < inp.length := by
+    rw [← hok.shape]; exact (List.getElem?_eq_some_iff.mp h3).1
+  have h1 : inp[r0.1]? = some inp[r0.1] := List.getElem?_eq_getElem hs
+  have hS := hok.samples _ (mem_zip_of_get _ _ _ _ _ h1 h3)
+  have hc : r0.2.1 < inp[r0.1].contigs.length := by
+    have hsh : dcs.length = inp[r0.1].contigs.length := hS.shape
+    rw [← hsh]; exact (List.getElem?_eq_some_iff.mp h4).1
+  have h2 : inp[r0.1].contigs[r0.2.1]? = some inp[r0.1].contigs[r0.2.1] := List.getElem?_eq_getElem hc
+  apply List.mem_map.mpr
+  refine ⟨descOf outs d, ?_, hdg⟩
+  apply List.mem_flatMap.mpr
+  refine ⟨tableOf outs inp[r0.1].contigs dcs, List.mem_of_getElem? (zipWith_get _ _ _ _ _ _ h1 h3), ?_⟩
+  apply List.mem_flatMap.mpr
+  refine ⟨(inp[r0.1].contigs[r0.2.1].name, ds.map (descOf outs)), ?_, ?_⟩
+  · unfold tableOf
+    exact List.mem_of_getElem? (zipWith_get _ _ _ _ _ _ h2 h4)
+  · exact List.mem_map.mpr ⟨d, List.mem_of_getElem? h5, rfl⟩
+
+theorem checkUnused_ok (gds : Array GroupD) (usedIds : List Nat) (a : Acc)
+    (h : ∀ GD ∈ gds.toList, GD.id ∈ usedIds) : checkUnused gds usedIds a = a := by
+  unfold checkUnused
+  rw [← Array.foldl_toList]
+  apply foldl_keep
+  intro GD hGD b
+  rw [if_pos (Or.inr (by simpa using h GD hGD))]
+
+/-! ## the composition -/
+
+theorem writeArchive_unpack (cfg : Cfg) (inp : List Writer.Sample) (dec : Decisions) (zc : Nat → List Nat → List Nat)
+    (bs : List Nat) (h : writeArchive cfg inp dec zc = some bs) :
+    ∃ outs, writeGroups cfg zc (storedAll cfg.k inp dec) dec.groups = some outs ∧
+      (Ragc.Details.storeBatches cfg.segSize cfg.k 50 (catalogue inp dec outs)).all (sizesFit zc) = true ∧
+      (∀ nb ∈ partList cfg zc inp outs (Ragc.Details.storeBatches cfg.segSize cfg.k 50 (catalogue inp dec outs)),
+        nb.2.2 < 2 ^ 64) ∧
+      bs = close (run (archiveOps (regNames dec)
+        (partList cfg zc inp outs (Ragc.Details.storeBatches cfg.segSize cfg.k 50 (catalogue inp dec outs))))) ∧
+      bs.length ≤ seekMax := by
+  unfold writeArchive at h
+  cases hw : writeGroups cfg zc (storedAll cfg.k inp dec) dec.groups with
+  | none => rw [hw] at h; simp at h
+  | some outs =>
+    rw [hw] at h
+    simp only [] at h
+    split at h
+    · rename_i hc
+      split at h
+      · rename_i hl
+        simp only [Option.some.injEq] at h
+        simp only [Bool.and_eq_true, List.all_eq_true, decide_eq_true_eq] at hc
+        refine ⟨outs, rfl, ?_, hc.2, h.symm, by rw [← h]; exact hl⟩
+        exact List.all_eq_true.mpr hc.1
+      · simp at h
+    · simp at h
+
+/-- **decode ∘ write = id**, Lemma form (see `Props.C01.read_write`). -/
+theorem read_write_main (cfg : Cfg) (inp : List Writer.Sample) (dec : Decisions)
+    (zc : Nat → List Nat → List Nat) (zd : List Nat → Option (List Nat)) (bs : List Nat)
+    (hdec : DecisionsOK cfg inp dec) (hz : ∀ l x, zd (zc l x) = some x) (hne : ∀ l x, zc l x = [] → x = [])
+    (hcodes : codesOK inp) (hw : writeArchive cfg inp dec zc = some bs) :
+    ∃ d, decodeArchive bs zd = .ok d ∧ d.catalogue = catalogueOf inp ∧ d.bases = basesOf inp ∧
+      d.violations = [] ∧ d.k = cfg.k ∧ d.mm = cfg.minMatch ∧ d.segSize = cfg.segSize := by
+  have hok := decOK_of cfg inp dec hdec
+  obtain ⟨outs, hwg, hfit, hmd, hbs, hlen⟩ := writeArchive_unpack cfg inp dec zc bs hw
+  have hoids := outs_ids cfg zc _ _ _ hwg
+  generalize hcat : catalogue inp dec outs = cat at hfit hmd hbs
+  generalize hparts : partList cfg zc inp outs (Ragc.Details.storeBatches cfg.segSize cfg.k 50 cat) = parts at hmd hbs
+  -- the container
+  obtain ⟨o, hopen, hdir, hread⟩ := archive_opens (regNames dec) parts (regNames_nodup dec hok.nodup)
+    (by rw [regNames_eq]; simp [fixedStreamNames]) (regNames_nz dec)
+    (by rw [← hparts]; exact partList_names cfg zc inp dec outs _ hoids) hmd (by rw [← hbs]; exact hlen)
+  have hO : Opens o (regNames dec) (partList cfg zc inp outs (Ragc.Details.storeBatches cfg.segSize cfg.k 50 cat)) := by
+    rw [hparts]; exact ⟨hdir, hread⟩
+  -- the stages
+  have h1 := checkFixedStreams_ok o dec _ hO {}
+  have h2 := checkTypeInfo_ok o dec cfg zc inp outs _ hO {}
+  have h3 := readParams_ok o dec cfg zc inp outs _ hO hok.k32 hok.mm32 hok.seg32 {}
+  have hnameok : ∀ s ∈ inp, ∀ b ∈ s.name, 1 ≤ b ∧ b ≤ 127 := by
+    intro s hs
+    obtain ⟨i, hi⟩ := List.mem_iff_getElem?.mp hs
+    have hil : i < dec.pieces.length := by rw [hok.shape]; exact (List.getElem?_eq_some_iff.mp hi).1
+    have hp : dec.pieces[i]? = some dec.pieces[i] := List.getElem?_eq_getElem hil
+    exact nameOK_iff _ (hok.samples _ (mem_zip_of_get _ _ _ _ _ hi hp)).name
+  have h4 := decodeCatalogue_ok zc zd hz hne cfg dec inp outs o cat hO hfit
+    (by rw [← hcat]; exact catalogue_ok cfg inp dec zc outs hok hcodes hwg)
+    (by rw [← hcat]; exact catalogue_length inp dec outs hok.shape) hok.nS hnameok hok.pred {}
+  obtain ⟨gds, h5, hG⟩ := decodeGroups_ok zc zd hz hne cfg inp dec outs _ o hok hcodes hwg hO {}
+  have htab : cat.map tableOfSample = List.zipWith (fun s dcs => tableOf outs s.contigs dcs) inp dec.pieces := by
+    rw [← hcat]; exact catalogue_tables inp dec outs
+  have h6 := checkUnused_ok gds
+    ((((cat.map tableOfSample).toArray.toList.flatMap fun t => t.flatMap (·.2)).map (·.group)).eraseDups) {} (by
+      intro GD hGD
+      obtain ⟨G, hGin, hGid⟩ := List.mem_map.mp (hG.ids GD hGD)
+      rw [List.mem_eraseDups, List.toList_toArray, htab, ← hGid]
+      exact group_used cfg inp dec outs hok G hGin)
+  have h7 := decodeSamples_ok cfg inp dec zc outs hok hcodes hwg gds hG.find {}
+  rw [← htab] at h7
+  obtain ⟨e1, e2⟩ := expected_samples cfg inp dec outs hok
+  have hD : ∃ st, decodeArchive bs zd = .ok ⟨cfg.k, cfg.minMatch, cfg.segSize,
+      List.zipWith (fun s dcs => (⟨s.name, contigsOf outs s.contigs dcs⟩ : DSample)) inp dec.pieces, [], st⟩ :=
+    ⟨_, by
+      unfold decodeArchive
+      rw [hbs, hopen]
+      simp only [bind, Except.bind, h1, h2, h3, h4, h5, h6, h7, pure, Except.pure]
+      rfl⟩
+  obtain ⟨st, hD⟩ := hD
+  refine ⟨_, hD, ?_, ?_, rfl, rfl, rfl, rfl⟩
+  · simpa [Decoded.catalogue] using e1
+  · simpa [Decoded.bases] using e2
+
 end Ragc.WriterLemmas
